@@ -27,14 +27,38 @@ type workerOut struct {
 // summed, keys starting with "max_" take the maximum, maps of integers are summed per key.
 // The caller must build the shard list deterministically before calling.
 func (r *Run) RunSharded(n int, work func(i int)) {
+	items := make([]string, n)
+	for i := range items {
+		items[i] = strconv.Itoa(i)
+	}
+	r.RunItems(items, func(it string) {
+		i, _ := strconv.Atoi(it)
+		work(i)
+	})
+}
+
+// RunItems is RunSharded for callers that shard more than once per run (e.g. one call per BFS
+// level): the parent hands the item list of THIS call to the workers through a file, and a worker
+// processes its share at the first RunItems call it reaches, whatever its own arguments are.
+// work must therefore depend only on the item string and on immutable globals.
+func (r *Run) RunItems(items []string, work func(item string)) {
+	n := len(items)
 	if w := os.Getenv("VERIF_WORKER"); w != "" {
 		parts := strings.Split(w, "/")
 		k, _ := strconv.Atoi(parts[0])
 		N, _ := strconv.Atoi(parts[1])
 		debug.SetGCPercent(400)
+		if f := os.Getenv("VERIF_WORKER_ITEMS"); f != "" {
+			b, err := os.ReadFile(f)
+			if err != nil || json.Unmarshal(b, &items) != nil {
+				fmt.Fprintln(os.Stderr, "worker cannot read items")
+				os.Exit(3)
+			}
+			n = len(items)
+		}
 		for i := 0; i < n; i++ {
 			if i%N == k {
-				work(i)
+				work(items[i])
 			}
 		}
 		out := workerOut{Cov: r.Cov, NViol: r.nviol, Capped: r.capped, CapNotes: r.capNotes, Samples: r.samples}
@@ -64,6 +88,12 @@ func (r *Run) RunSharded(n int, work func(i int)) {
 		os.Exit(2)
 	}
 	defer os.RemoveAll(dir)
+	itemsFile := dir + "/items.json"
+	ib, _ := json.Marshal(items)
+	if err := os.WriteFile(itemsFile, ib, 0o644); err != nil {
+		fmt.Fprintln(os.Stderr, "cannot write items:", err)
+		os.Exit(2)
+	}
 	var wg sync.WaitGroup
 	outs := make([]workerOut, N)
 	fails := make([]string, N)
@@ -73,7 +103,7 @@ func (r *Run) RunSharded(n int, work func(i int)) {
 			defer wg.Done()
 			outFile := fmt.Sprintf("%s/%d.json", dir, k)
 			cmd := exec.Command(os.Args[0], os.Args[1:]...)
-			cmd.Env = append(os.Environ(), fmt.Sprintf("VERIF_WORKER=%d/%d", k, N), "VERIF_WORKER_OUT="+outFile, "GOMAXPROCS=2",
+			cmd.Env = append(os.Environ(), fmt.Sprintf("VERIF_WORKER=%d/%d", k, N), "VERIF_WORKER_OUT="+outFile, "VERIF_WORKER_ITEMS="+itemsFile, "GOMAXPROCS=2",
 				"VERIF_TIER="+r.Tier)
 			cmd.Stderr = os.Stderr
 			if err := cmd.Run(); err != nil {
